@@ -2,6 +2,7 @@ package main
 
 import (
 	"fmt"
+	"go/ast"
 	"go/types"
 	"strings"
 
@@ -297,6 +298,24 @@ func (c *FnVC) applyContract(x *ssa.Call, ct *Contract, f *ssa.Function, sig *ty
 	for _, e := range ct.Ensures {
 		if e.AssumedOnly {
 			c.trustedUsed["assumed ghost-event clause of "+name+": "+e.Text] = true
+		}
+		// `G ==> sameheap()`: instead of equating whole heap arrays (expensive for the
+		// solver), the heap after the call is ite(G, heap before, heap after) per component
+		if g, ok := sameheapGuard(e.Expr); ok {
+			gt, err := post.boolExpr(g)
+			if err != nil {
+				c.errorf("%s: ensures of %s %q: %v", c.fnName(), name, e.Text, err)
+				continue
+			}
+			gn := c.freshName("sameheap")
+			c.def(gn, "Bool", gt)
+			for _, k := range append([]string{"alloc"}, c.allComps()...) {
+				if preHeap[k] == c.cur[k] {
+					continue
+				}
+				c.setH(k, ite(gn, c.hOf(preHeap, k), c.H(k)))
+			}
+			continue
 		}
 		t, err := post.boolExpr(e.Expr)
 		if err != nil {
@@ -627,4 +646,38 @@ func (c *FnVC) copyBuiltin(x *ssa.Call, args []ssa.Value) {
 	}
 	c.assume(fmt.Sprintf("(forall ((l Loc)) (! (= (select %s l) (ite (inrange l %s #x0000000000000000 %s) %s (select %s l))) :pattern ((select %s l))))", h, dst, n, srcAt, old, h))
 	c.cur[k] = h
+}
+
+// sameheapGuard: e is imp(G, sameheap()) - returns G.
+func sameheapGuard(e ast.Expr) (ast.Expr, bool) {
+	for {
+		if p, ok := e.(*ast.ParenExpr); ok {
+			e = p.X
+			continue
+		}
+		break
+	}
+	call, ok := e.(*ast.CallExpr)
+	if !ok || len(call.Args) != 2 {
+		return nil, false
+	}
+	if id, ok := call.Fun.(*ast.Ident); !ok || id.Name != "imp" {
+		return nil, false
+	}
+	rhs := call.Args[1]
+	for {
+		if p, ok := rhs.(*ast.ParenExpr); ok {
+			rhs = p.X
+			continue
+		}
+		break
+	}
+	rc, ok := rhs.(*ast.CallExpr)
+	if !ok || len(rc.Args) != 0 {
+		return nil, false
+	}
+	if id, ok := rc.Fun.(*ast.Ident); !ok || id.Name != "sameheap" {
+		return nil, false
+	}
+	return call.Args[0], true
 }
